@@ -28,7 +28,8 @@ ACCESS = [(True, False), (False, True), (True, True)]      # (readable, writeabl
 EMITS = [True, False, 'invalidates']
 IA, IB, PROPS = 'org.t.PA', 'org.t.PB', 'org.freedesktop.DBus.Properties'
 IC = 'org.t.P'          # IC + 'AP' and IA + 'P' concatenate to the same text
-NSTEPS = 18        # 0-2 assign value 0..2, 3-5 remote Set value 0..2, 6.. the other step kinds (16, 17: third interface)
+NSTEPS = 20        # 0-2 assign value 0..2, 3-5 remote Set value 0..2, 6.. the other step kinds (16, 17: third interface;
+                   # 18, 19: assignment of a plain value / of a value wrapped in another integer type)
 
 
 def _decls(tier):
@@ -149,9 +150,12 @@ def build(family, p):
             elif s < 16:
                 steps.append(s - 4)
                 vals.append(VPOOL[0])
-            else:
+            elif s < 18:
                 steps.append(s - 4)          # 12, 13: third interface
                 vals.append(VPOOL[0])
+            else:
+                steps.append(s - 4)          # 14: plain value, 15: value carrying another wrapper type
+                vals.append(VPOOL[2 if s == 18 else 1])
         message.DBusMessage._nextSerial = 1
         with notrace():
             run(steps, vals)
@@ -194,9 +198,14 @@ def build(family, p):
 
         for j, st in enumerate(steps):
             v = vals[j]
-            if st == 0:                                   # local assignment of IA.P
+            if st in (0, 14, 15):                         # local assignment of IA.P
                 n0 = len(conn.sent)
-                obj.p = wrap(v)
+                if st == 0:
+                    obj.p = wrap(v)
+                elif st == 14 or sig not in ('y', 'i'):
+                    obj.p = plain(v)                      # a plain Python value of the declared type
+                else:
+                    obj.p = marshal.UInt32(v) if sig == 'y' else marshal.Int64(v)      # in range, other integer wrapper
                 store[(IA, 'P')] = plain(v)
                 expect_signals([m for m in conn.sent[n0:] if m._messageType == 4], IA, 'P', plain(v), emits)
             elif st == 1:                                 # remote Set IA.P
@@ -248,6 +257,13 @@ def build(family, p):
                 for kk in want_keys:
                     if store[(iface, kk)] is not None:
                         check(got[kk] == store[(iface, kk)], 'GetAll value differs from the value last assigned')
+                if iface == IA and readable and sig in ('y', 'i', 's'):
+                    from .. import ref_codec
+                    vals_, _n = ref_codec.decode('a{sv}', r.rawBody, 0, True, keep_vsig=True)
+                    entries = vals_[0].items() if isinstance(vals_[0], dict) else vals_[0]
+                    for key_, var_ in entries:
+                        if key_ == 'P':
+                            check(var_[0] == sig, 'GetAll must return a variant of exactly the declared type')
             elif st == 8:                                 # Set IB.P (int32, read-write, emitting)
                 r, sg = remote('Set', 'ssv', [IB, 'P', marshal.Int32(7 + j)])
                 check(r._messageType == 2, 'Set on the second interface must succeed')
